@@ -97,7 +97,7 @@ func genTxs(rng *kernel.RNG, accounts, max int) []TxRecipe {
 	if max > 0 && rng.Bool(0.7) {
 		n = rng.Range(1, max)
 	}
-	weights := []int{30, 12, 14, 5, 5, 5, 6, 5, 5, 4, 7, 7, 4, 3, 5, 6}
+	weights := []int{30, 12, 14, 5, 5, 5, 6, 5, 5, 4, 7, 7, 4, 3, 5, 6, 5}
 	txs := make([]TxRecipe, n)
 	for i := range txs {
 		txs[i] = TxRecipe{From: rng.Intn(accounts), Kind: rng.Pick(weights), To: rng.Intn(accounts),
